@@ -256,6 +256,14 @@ func c13Gen(t *rapid.T, methods []vfshared.Method) c13Case {
 	m := c12PickMethod(t, methods)
 	ns := c13GenMap(t, c13NSNames, c13NSTarget, "ns", 0)
 	sa := c13GenMap(t, c13SAKeys, c13SATarget, "sa", 0)
+	// one case in four: a one-to-one mapping in which a target name is also a source name (the two clusters use the
+	// same two names the other way round, or a chain); containers then tend to hold both keys
+	switch rapid.IntRange(0, 7).Draw(t, "saShape") {
+	case 0:
+		sa = map[string]string{"k1": "k2", "k2": "k1"}
+	case 1:
+		sa = map[string]string{"k1": "k2", "k2": "k9", "CustomKeywordField": "k1"}
+	}
 	if len(ns) == 0 && len(sa) == 0 {
 		ns = map[string]string{"ns-local": "ns-remote"}
 	}
